@@ -4,7 +4,9 @@ from fractions import Fraction
 from pcv import core
 
 P = "PcVerif.Props.C19."
-THEOREMS = [P + t for t in ["adjust_affine_filter", "merge_runs", "merge_others_untouched", "merge_idempotent", "runs_flatten", "runs_uniform", "merged_neighbours_differ"]]
+THEOREMS = [P + t for t in ["adjust_affine_filter", "merge_runs", "merge_others_untouched", "merge_idempotent", "runs_flatten", "runs_uniform", "merged_neighbours_differ",
+                           "adjust_nodes_sublist", "adjust_mem_iff", "adjust_length", "retime_duration", "adjust_none_dropped",
+                           "adjust_keeps_sorted", "adjust_identity"]]
 
 
 def make(tier, seed):
